@@ -1,11 +1,23 @@
 // Copyright Amazon.com, Inc. or its affiliates. All Rights Reserved.
 // SPDX-License-Identifier: Apache-2.0
 
+#[cfg(not(metrique_verif_loom))]
 use std::{
     marker::PhantomData,
     ops::AddAssign,
     sync::{Arc, Mutex},
     time::{Duration, UNIX_EPOCH},
+};
+// verification builds only: the shared stopwatch total's mutex and reference count become
+// scheduler-visible
+#[cfg(metrique_verif_loom)]
+use {
+    metrique_writer_core::__verif::{sync::Mutex, varc::Arc},
+    std::{
+        marker::PhantomData,
+        ops::AddAssign,
+        time::{Duration, UNIX_EPOCH},
+    },
 };
 
 use metrique_core::CloseValue;
